@@ -69,6 +69,12 @@ type Network struct {
 func newNetwork(q Qualifier, rule rule) (Rule, error) {
 	nType, protocol, domain := "", "", ""
 	r := rule.GetSlice()
+	if len(r) == 1 && !slices.Contains(requirements[NETWORK]["domains"], r[0]) &&
+		(slices.Contains(requirements[NETWORK]["type"], r[0]) ||
+			slices.Contains(requirements[NETWORK]["protocol"], r[0])) {
+		// No domain: 'network stream,'
+		r = []string{"", r[0]}
+	}
 	if len(r) > 0 {
 		domain = r[0]
 	}
